@@ -71,6 +71,7 @@ type World struct {
 	RespWait      time.Duration
 	Quiet         time.Duration // silence window after each step
 	Died          bool
+	LightDp       bool          // UP4: record the writes but not the tables (long histories judged by their writes only, C16)
 	SchedMaxHold  time.Duration // upper limit of the time the random scheduler stalls its victim class (0: none)
 	SnapEvery     bool          // attach the guarded state snapshot to every recorded step
 	evMu          sync.Mutex
